@@ -38,6 +38,16 @@ func (ex *Exec) functypeContract(caller *ssa.Function, v ssa.Value) *Contract {
 			return c
 		}
 	}
+	// element of a slice parameter: contract of that parameter
+	if u, ok := v.(*ssa.UnOp); ok && caller != nil {
+		if ia, ok := u.X.(*ssa.IndexAddr); ok {
+			if p, ok := ia.X.(*ssa.Parameter); ok {
+				if c := ex.ct.Funcs["functype:"+caller.String()+":"+p.Name()]; c != nil {
+					return c
+				}
+			}
+		}
+	}
 	// by (struct type, field) when the value was loaded from a field
 	if u, ok := v.(*ssa.UnOp); ok {
 		if fa, ok := u.X.(*ssa.FieldAddr); ok {
@@ -481,7 +491,16 @@ func (ex *Exec) resolveTarget(env *SpecEnv, e Expr, src string) []target {
 			}
 			return ex.structTargets(x.T, t, false)
 		case "allfields":
+			tname := ""
 			if te, ok := e.Args[0].(*EIdent); ok {
+				tname = te.Name
+			} else if fe, ok := e.Args[0].(*EField); ok {
+				if id, ok := fe.X.(*EIdent); ok {
+					tname = id.Name + "." + fe.Name
+				}
+			}
+			if tname != "" {
+				te := &EIdent{tname}
 				t := ex.ld.resolveType(te.Name, env.pkg)
 				if t != nil {
 					if _, ok := structOf(t); ok {
